@@ -42,7 +42,13 @@ def permute_model(gm: lang.GModel, rng, rename, special_ok):
     names_v = [gm.vars[int(i)][0] for i in pv]
     names_p = [gm.pars[int(i)][0] for i in pp]
     if rename:
-        pool = list(rng.permutation(ALT_NAMES + (SPECIAL if special_ok else [])))
+        if rng.random() < 0.4:
+            # names that are prefixes of one another (va / va1 / va1x ...), in random declaration order
+            base = str(rng.choice(["va", "xs", "Tin", "kq", "w"]))
+            chain = [base + "1x2y3z4"[:k] for k in range(len(names_v) + len(names_p))]
+            pool = list(rng.permutation(chain))
+        else:
+            pool = list(rng.permutation(ALT_NAMES + (SPECIAL if special_ok else [])))
         names_v = [str(pool.pop()) for _ in names_v]
         names_p = [str(pool.pop()) for _ in names_p]
     vars_ = [(names_v[k], gm.vars[int(i)][1], None) for k, i in enumerate(pv)]
